@@ -14,11 +14,11 @@ CLAIMED = {
           "Recorder doubles are kept alive beyond their logical scope (a dispatch to an ended scope is observed, not undefined behaviour), so real use-after-free is out of reach; the process-wide global cell is returned to 'uninstalled' between runs by a guarded hook (one run = one process life).",
           "DESIGN.md 4/C01"),
   "C14": ("seeded interpretation under Miri (-Zmiri-many-seeds): seeded programs of construct/clone/convert/hand-over/drop over SharedString and Key labels on two threads, Miri as memory oracle",
-          "Each execution is one seeded program (6-19 steps of construct from static/owned-with-any-capacity/Arc/std-Cow, clone, deref/compare/hash, into_owned, Key::into_parts, with_extra_labels, hand-over to another thread that checks, clones and drops, drop) under one Miri interpreter seed: a seeded scheduler pre-empting at basic-block granularity with weak-memory emulation, so one (program, seed) pair is one repeatable execution. The program checks content against a model and Arc strong counts after every step; Miri reports use-after-free, double free, layout-mismatched deallocation, leaks and data races. Runs the shipped token stream (guard off) through a shadow manifest.",
+          "Each execution is one seeded program (6-19 steps of construct from static/owned-with-any-capacity/Arc/std-Cow/run-time borrowed label tables, clone, deref/compare/hash, into_owned, Key::into_parts, with_extra_labels, hand-over to another thread that checks, clones and drops, drop) under one Miri interpreter seed: a seeded scheduler pre-empting at basic-block granularity with weak-memory emulation, so one (program, seed) pair is one repeatable execution. The program checks content against a model and Arc strong counts after every step; Miri reports use-after-free, double free, layout-mismatched deallocation, leaks and data races. Runs the shipped token stream (guard off) through a shadow manifest.",
           "Miri explores the executions it is given, not all of them; the schedule dimension of this property is thin (Arc reference counting is std's); the Cow->std::borrow::Cow conversion does not exist for str/slices and is not exercised.",
           "DESIGN.md 4/C14, 3.7"),
   "C05": ("deterministic simulation (dsim): seeded schedules at atomic-operation granularity over AtomicBucket push/data_with/is_empty/clear_with incl. block hand-over, real crossbeam-epoch",
-          "Seeded search over interleavings of 2-4 threads mixing push, snapshot reads, is_empty and clears on one bucket pre-filled next to the 64-slot block boundary; every operation on write/read/tail/next and both quiescence loops is a scheduling point. Oracle over the recorded history: multiset conservation (each pushed tag delivered to exactly one clear or left for the final drain), snapshot completeness window, no fabricated/duplicate/torn value, per-block order, no double drop of values with destructors. Three genuine defects found this way were repaired (known_findings.json).",
+          "Seeded search over interleavings of 2-4 threads mixing push, snapshot reads, is_empty and clears on one bucket pre-filled next to the 64-slot block boundary (rarely with 33-66 blocks, beyond the clear path's reclamation batch of 32); every operation on write/read/tail/next and both quiescence loops is a scheduling point. Oracle over the recorded history: multiset conservation (each pushed tag delivered to exactly one clear or left for the final drain), snapshot completeness window, no fabricated/duplicate/torn value, per-block order, no double drop of values with destructors. Three genuine defects found this way were repaired (known_findings.json).",
           "Sequentially consistent interleavings only; internals of crossbeam-epoch are single steps; leak of values with destructors is not asserted (epoch reclamation is deferred); plans using the callback-less clear() are checked for fabrication/duplication/order only.",
           "DESIGN.md 4/C05"),
   "C04": ("deterministic simulation (dsim): seeded schedules over handle clones updating shared atomic storage from 2-4 threads, every atomic RMW / CAS-loop step a scheduling point",
@@ -34,23 +34,23 @@ CLAIMED = {
           "Sequentially consistent interleavings only; the algebraic half is seeded input generation riding inside the simulation, not a result of schedule search.",
           "DESIGN.md 4/C03"),
   "C06": ("deterministic simulation (dsim) + WGL linearizability check against a sequential map model",
-          "Seeded search over interleavings of 2-4 threads issuing get_or_create/get/delete/retain/clear/visit/get_*_handles on 1-4 keys (equal keys built differently, permuted labels, same-shard keys) and up to three kinds, shard-lock acquisition/release windows being scheduling points; the recorded invoke/return history is checked for linearizability against a sequential (kind,key)->storage-id map with a counting Storage double; quiescent listings through both listing APIs close every history.",
+          "Seeded search over interleavings of 2-4 threads issuing get_or_create/get/delete/retain/clear/visit/get_*_handles on 1-4 keys (equal keys built differently, permuted labels, same-shard keys) incl. a crowded-shard profile that makes a per-shard table grow, keys shared by reference whose first hashing races, and get_or_create closures that panic after seeing the storage and up to three kinds, shard-lock acquisition/release windows being scheduling points; the recorded invoke/return history is checked for linearizability against a sequential (kind,key)->storage-id map with a counting Storage double; quiescent listings through both listing APIs close every history.",
           "clear/retain/visit/listings are per-shard by documentation and are modelled as independent per-key sub-operations; histories are capped at 60 sub-operations and 3M checker nodes (over-budget histories are counted, not judged).",
           "DESIGN.md 4/C06"),
   "C16": ("deterministic simulation (dsim): seeded schedules over pushers racing a drainer at atomic-step granularity, simulator-seeded reservoir RNG; seeded retention-frequency trials",
-          "Sequential push/drain cycles are checked exactly (count, membership, sample rate, emptiness) for capacities 0..1024; concurrent pushes || drains are checked for capacity, fabrication, duplication, staleness and loss with the known concurrent-design deviation recorded as a known finding by structural signature; a second scenario runs 20 000+ seeded trials per (capacity, stream length) cell and bounds every position's retention frequency by 6 sigma. The off-by-one in the replacement index (and the capacity-0 panic) were found and repaired.",
+          "Sequential push/drain cycles are checked exactly (count, membership, sample rate, emptiness) for capacities 0..1024; concurrent pushes || drains are checked for capacity, fabrication, duplication, staleness and loss with the known concurrent-design deviation recorded as a known finding by structural signature (a push invoked before the overlapping drain's closure was entered, or a push overlapped by such a push); a second scenario runs 20 000+ seeded trials per (capacity, stream length) cell and bounds every position's retention frequency by 6 sigma. The off-by-one in the replacement index (and the capacity-0 panic) were found and repaired.",
           "Sequentially consistent interleavings only; the uniformity half is a statistical test on a seeded generator (deterministic for a given seed).",
           "DESIGN.md 4/C16"),
   "C19": ("deterministic simulation (dsim): seeded schedules over updaters racing snapshotters on a real DebuggingRecorder, with a second recorder installed locally on another thread",
-          "Seeded search over interleavings of 1-3 updater threads (register+update through the thread-local dispatch path, equal keys built differently, describe with/without unit) and 1-2 snapshotting threads; oracle over the history: every histogram value in exactly one snapshot, counter/gauge values inside the snapshot's window, registered-before metrics listed, described-only and other-recorder metrics never listed, first-registration order, unit/description per (kind,name) with sticky unit.",
+          "Seeded search over interleavings of 1-3 updater threads (register+update through the thread-local dispatch path, equal keys built differently, describe with/without unit), a histogram pre-filled across its 64-value block boundary and 1-2 snapshotting threads; oracle over the history: every histogram value in exactly one snapshot, counter/gauge values inside the snapshot's window, registered-before metrics listed, described-only and other-recorder metrics never listed, first-registration order, unit/description per (kind,name) with sticky unit.",
           "Sequentially consistent interleavings only; one describing thread per recorder so that the describe order is the real-time order.",
           "DESIGN.md 4/C19"),
   "C07": ("deterministic simulation (dsim): seeded schedules over recorder threads racing render()/run_upkeep()/describe on a real PrometheusRecorder; output parsed by an independent strict text-format parser",
-          "Seeded search over interleavings of 1-3 recording threads (counter increment/absolute, gauge set, histogram record; equal keys built differently), 1-2 rendering threads and upkeep calls, under seeded builder configurations (global labels overlapping key labels, global and per-metric buckets, quantiles, unit suffix); every render is parsed strictly and compared with the history: window bounds for counts/sums/buckets while concurrent, exact values at quiescence, monotone across non-overlapping renders, label merge with key precedence, first-description HELP, idempotent quiescent render.",
+          "Seeded search over interleavings of 1-3 recording threads (counter increment/absolute, gauge set, histogram record; equal keys built differently), histograms pre-filled to a sample-block boundary, clock advances past the summary window, 1-2 rendering threads and upkeep calls, under seeded builder configurations (global labels overlapping key labels, global and per-metric buckets, quantiles, unit suffix); every render is parsed strictly and compared with the history: window bounds for counts/sums/buckets while concurrent, exact values at quiescence, monotone across non-overlapping renders, label merge with key precedence, first-description HELP, idempotent quiescent render.",
           "Sequentially consistent interleavings only; one series per family and one describing thread per run; handle listings are sorted under the guard so the render thread's lock order is seed-deterministic (oracles compare sets, never order).",
           "DESIGN.md 4/C07"),
   "C12": ("deterministic simulation (dsim) on virtual time: seeded update / clock-advance / observe histories under a mock quanta clock, single simulated thread",
-          "The nondeterminism is the clock. Seeded histories (advances of exactly the timeout and +/- 1 ns, value-preserving updates, all masks, no timeout, the same key under two kinds) drive (i) the real Recency + Registry the way an exporter does and (ii) the real Prometheus recorder built around the mock clock and observed through render(); a per-(kind,key) state machine (generation, first-seen time) predicts keep/drop exactly, including full values when kept and restart from zero after a drop. The shared-entry defect for one key under two kinds was found and repaired.",
+          "The nondeterminism is the clock. Seeded histories (advances of exactly the timeout and +/- 1 ns, value-preserving updates, all masks, no timeout, the same key under two kinds) drive (i) the real Recency + Registry the way an exporter does and (ii) the real Prometheus recorder built around the mock clock and observed through render(); (iii) an updater thread racing the observing thread on one counter with every step of Generational / the shard lock / the recency table a scheduling point (a drop may not lose an update completed before the dropping observation began); a per-(kind,key) state machine (generation, first-seen time) predicts keep/drop exactly, including full values when kept and restart from zero after a drop. The shared-entry defect for one key under two kinds was found and repaired.",
           "Single-threaded histories (no schedule dimension); the exporter loop around should_store_* in scenario (i) is harness code written the way the exporters do it.",
           "DESIGN.md 4/C12"),
   "C15": ("deterministic simulation (dsim) on virtual time: seeded sample / clock-advance / render histories under a mock quanta clock, single simulated thread",
@@ -58,7 +58,7 @@ CLAIMED = {
           "Half of this property is a pure function of its inputs and is checked as an invariant on the states the simulated histories reach, not claimed as a result of schedule search; summary-typed metrics get finite samples only; 0.2% tolerance for the sketch.",
           "DESIGN.md 4/C15"),
   "C09": ("deterministic simulation (dsim) with fault injection: seeded write/drain histories on one PayloadWriter; and the whole exporter (forwarder loop on virtual time) against a simulated agent socket with seeded send faults",
-          "(i) Seeded histories of write_counter/gauge/histogram/distribution and drains (flush cycles) on ONE writer through the guarded driver: size limits from 0 upward, with/without length prefix, prefix and label lengths up to beyond the limit, u64/f64 extremes and non-finite values, 0..3000 histogram values, size-rejected metrics followed by metrics that fit; every payload is parsed by an independent DogStatsD parser and every input point must be in exactly one payload or reported dropped, with exact little-endian length prefixes. (ii) The real DogStatsDBuilder::build pipeline on virtual time against simulated UDP / unixgram / unix-stream peers with drop, duplicate, ECONNREFUSED, ENOBUFS, timeout, short write, EINTR, EPIPE and reset faults: well-formed messages within the limit, whole length-prefixed frames (a fragment only where a connection ended in an injected error). Three genuine defects found this way were repaired.",
+          "(i) Seeded histories of write_counter/gauge/histogram/distribution and drains (flush cycles) on ONE writer through the guarded driver: size limits from 0 upward, with/without length prefix, prefix and label lengths up to beyond the limit, u64/f64 extremes and non-finite values, 0..3000 histogram values, rare flush cycles above 64 KiB, histogram writes reusing the previous key with another sample rate, size-rejected metrics followed by metrics that fit; every payload is parsed by an independent DogStatsD parser and every input point must be in exactly one payload or reported dropped, with exact little-endian length prefixes. (ii) The real DogStatsDBuilder::build pipeline on virtual time against simulated UDP / unixgram / unix-stream peers with drop, duplicate, ECONNREFUSED, ENOBUFS, timeout, short write, EINTR, EPIPE and reset faults: well-formed messages within the limit, whole length-prefixed frames (a fragment only where a connection ended in an injected error). Three genuine defects found this way were repaired.",
           "Names and labels use an alphabet without DogStatsD delimiters; layer (i) has no schedule dimension (single simulated thread); conservation in layer (ii) is asserted in fault-free runs only.",
           "DESIGN.md 4/C09"),
   "C10": ("deterministic simulation (dsim) with fault injection: seeded schedules of updater threads racing State::flush at atomic-step granularity; and the real forwarder loop on virtual time against a simulated, faulty agent socket",
@@ -66,11 +66,11 @@ CLAIMED = {
           "Sequentially consistent interleavings only; sampling is off (exact identities); in (ii) application updates happen mid-interval (races are (i)'s job).",
           "DESIGN.md 4/C10"),
   "C11": ("deterministic simulation (dsim) with fault injection: the real run_transport event loop over a simulated mio (poll, waker, listener, stream pipes) with slow, stalled, closing and resetting clients, partial writes, EAGAIN, EINTR, EPIPE",
-          "Seeded scripts of describe / connect / burst (1-2 emitter threads) / read / stall / close / reset / idle steps drive the built exporter; pipe capacities from 1 byte up force partial writes inside frames; seeded faults on every write and poll. Each client's byte stream is decoded by a hand-written protobuf decoder: whole length-delimited Events only (a fragment only on killed connections), metadata before metrics and only what was described, metric name/labels/operation intact, no duplicate, per-emitter and per-burst order, full delivery to prompt roomy clients, and - after faults stop and everybody drained - delivery of a final burst to every still-connected client for every buffer configuration including None. Three genuine defects found this way were repaired.",
+          "Seeded scripts of describe / connect / burst (1-2 emitter threads) incl. overloads above the configured buffer / read / stall / close / reset / idle steps drive the built exporter; pipe capacities from 1 byte up force partial writes inside frames; seeded faults on every write and poll. The exporter's channel operations are scheduling points (guarded shim), and delivery is also checked at a quiescent point before the final burst (no delivery that needs later traffic). Each client's byte stream is decoded by a hand-written protobuf decoder: whole length-delimited Events only (a fragment only on killed connections), metadata before metrics and only what was described, metric name/labels/operation intact, no duplicate, per-emitter and per-burst order, full delivery to prompt roomy clients, and - after faults stop and everybody drained - delivery of a final burst to every still-connected client for every buffer configuration including None. Three genuine defects found this way were repaired.",
           "Sequentially consistent interleavings only; mio is replaced under the guard by a shim with the same API subset whose behaviours (edge-triggered readiness, EAGAIN followed by a writable edge) follow epoll semantics; client and metadata maps are ordered maps under the guard; bursts stay within the configured buffer between transport-idle points.",
           "DESIGN.md 4/C11"),
   "C17": ("deterministic simulation (dsim): seeded span-tree programs on 1-3 threads sharing one tracing Dispatch, interleaved at operation granularity, checked against a reference span-stack model",
-          "Seeded programs of enter / exit / record / emit over four span call sites with overlapping field names, Empty fields and values of every visited type run on 1-3 simulated threads sharing one Registry+MetricsLayer dispatch and one TracingContextLayer (include-all, allow-list, or a custom filter); a per-thread model of the span stack (own fields, parent's labels at creation not overwriting, record() overwriting on that span only) predicts the labels of every emitted key: filtered span labels overwritten by the metric's own, no label name twice, key unchanged without span fields, independent of other threads.",
+          "Seeded programs of enter / exit / record / emit over four span call sites/six since round 2, plus explicit-root spans and a span shared by an emitting and a recording thread whose value formatting is a scheduling point, with overlapping field names, Empty fields and values of every visited type run on 1-3 simulated threads sharing one Registry+MetricsLayer dispatch and one TracingContextLayer (include-all, allow-list, or a custom filter); a per-thread model of the span stack (own fields, parent's labels at creation not overwriting, record() overwriting on that span only) predicts the labels of every emitted key: filtered span labels overwritten by the metric's own, no label name twice, key unchanged without span fields, independent of other threads.",
           "Interleavings inside sharded-slab and the label object pool are not subdivided (schedule sampled at harness-operation granularity); four fixed span call sites.",
           "DESIGN.md 4/C17"),
   "C18": ("seeded simulation with fault injection over a simulated listener/stream seam: the real accept loop, allowlist check and hyper connection on a tokio current-thread runtime, with scripted peers of arbitrary source address",
